@@ -8,7 +8,7 @@ Import ListNotations.
 Require Import Base.Corr Base.C11_Unique Model.C11_Topo Proofs.C11_TopoProofs Proofs.C11_EquivProofs.
 Require Import Model.C12_Refine Model.C12_Geom Model.C13_Adaptive.
 Require Import Proofs.C12_RefineProofs Proofs.C12_GeomProofs Proofs.C12_BoundaryProofs Proofs.C13_AdaptiveProofs.
-Require Import Model.C12_Global Proofs.C12_GlobalProofs Proofs.C12_InvProofs Proofs.C12_Face3Proofs.
+Require Import Model.C12_Global Proofs.C12_GlobalProofs Proofs.C12_InvProofs Proofs.C12_Face3Proofs Proofs.C12_HexCycleProofs.
 Require Import Gen.C12Gen Dyn.C12Tie.
 Local Open Scope nat_scope.
 
@@ -501,8 +501,7 @@ Print Assumptions C12_refined_k_conforming_3d.
    "the same four vertices" does not determine which pairs are edges): in EVERY cell containing the face f the four pieces, with
    the library's numbering offE + t2e[.] and offF + t2f[.], are a function of f alone (its stored vertex tuple, the positions of
    its four sides in mesh.edges, its number), so two hexahedra sharing a face leave the same four faces on it.
-   NOT closed by induction over k: that the refined mesh again satisfies the cyclic-order hypothesis is not proved (the
-   distinct-vertices invariant is: C12_refined_k_distinct_vertices_3d). *)
+   Closed by induction over k in C12_refined_k_conforming_hex below. *)
 Theorem C12_global_no_hanging_nodes_hex :
   trace4_ok gen_hex_rfacets gen_hex_redges gen_hex_templates = true /\
   forall cells oE oF k a,
@@ -536,6 +535,46 @@ Proof.
   exact (shared_qface_same_pieces cells gen_hex_rfacets gen_hex_redges 8 hex_qface_edges_ok Hc Hconf oE oF k1 a1 k2 a2).
 Qed.
 Print Assumptions C12_shared_face_shares_pieces_hex.
+
+(* THE HEXAHEDRAL INDUCTION CLOSED.  [conf] is the pairwise form of the cyclic-order hypothesis (two (face slot, cell) pairs
+   spanning the same vertex set list it in the same cycle up to rotation / reversal); it is equivalent to the hypothesis of
+   C11_f2e_numbers_mesh_edges_hex.  One uniform step preserves it together with the distinct-vertices invariant: a child face
+   either contains the cell node (then both cells are children of the same parent and the templates list it alike), or it is the
+   corner piece {V, E, F, E'} of a parent face, whose cycle is determined by the corner and its two neighbours in the parent's
+   cycle — the same neighbours from both parents, because they list the parent face in the same cycle. *)
+Theorem C12_hex_step_keeps_conformity : forall p t, cells_ok 8 (length p) t -> conf t gen_hex_rfacets ->
+  cells_ok 8 (length (fst (uniform_block hex_spec 3 p (hex_tabs t)))) (snd (uniform_block hex_spec 3 p (hex_tabs t))) /\
+  conf (snd (uniform_block hex_spec 3 p (hex_tabs t))) gen_hex_rfacets.
+Proof. exact hex_step_conf. Qed.
+Print Assumptions C12_hex_step_keeps_conformity.
+
+(* hence at EVERY level of refined(k) of a conforming hexahedral mesh the hypothesis of C12_global_no_hanging_nodes_hex holds and
+   every face is cut alike (four quadrilaterals determined by the face alone) from all cells containing it *)
+Theorem C12_refined_k_conforming_hex : forall k p t, cells_ok 8 (length p) t ->
+  (forall s e, s < length gen_hex_rfacets -> e < length t ->
+     dihedral (nth (t2f_at t gen_hex_rfacets s e) (entities false t gen_hex_rfacets) []) (slotv (nth s gen_hex_rfacets []) (nth e t []))) ->
+  let r := refined_k (uniform_block hex_spec 3) hex_tabs k p t in
+  cells_ok 8 (length (fst r)) (snd r) /\
+  (forall s e, s < length gen_hex_rfacets -> e < length (snd r) ->
+     dihedral (nth (t2f_at (snd r) gen_hex_rfacets s e) (entities false (snd r) gen_hex_rfacets) [])
+              (slotv (nth s gen_hex_rfacets []) (nth e (snd r) []))) /\
+  forall oE oF c a, c < length (snd r) -> a < length gen_hex_rfacets ->
+    let tb := c11_tables3 (snd r) gen_hex_rfacets gen_hex_redges in
+    let f := nth a (cf (cell_ctx tb c)) 0 in
+    forall e, In e (resolved_qface_pieces gen_hex_rfacets gen_hex_redges oE oF (cell_ctx tb c) a)
+              <-> In e (face_trace4 (tb_edges tb) oE oF f (nth f (entities false (snd r) gen_hex_rfacets) [])).
+Proof.
+  intros k p t H Hd r.
+  destruct (refined_k_conf (uniform_block hex_spec 3) hex_tabs 8 gen_hex_rfacets hex_step_conf k p t H (c11_conf t gen_hex_rfacets Hd))
+    as [Hk Hc].
+  assert (Hd' : forall s e, s < length gen_hex_rfacets -> e < length (snd r) ->
+            dihedral (nth (t2f_at (snd r) gen_hex_rfacets s e) (entities false (snd r) gen_hex_rfacets) [])
+                     (slotv (nth s gen_hex_rfacets []) (nth e (snd r) []))).
+  { apply conf_c11; [exact hex_rf_len4 | exact Hc]. }
+  split; [exact Hk|]. split; [exact Hd'|]. intros oE oF c a.
+  exact (qface_pieces_global (snd r) gen_hex_rfacets gen_hex_redges 8 hex_qface_edges_ok (cells_ok_distinct _ _ _ Hk) Hd' oE oF c a).
+Qed.
+Print Assumptions C12_refined_k_conforming_hex.
 
 (* the cyclic-order hypothesis is satisfiable: two hexahedra sharing a face, the second listing it rotated (the instance of C11) *)
 Example C12_hex_conformity_instance :
